@@ -229,8 +229,8 @@ fn run_history<C: CellType>(c: &TapeCheck, v: &mut Verdict) {
                     continue;
                 }
                 galloc::with_zone(g, || mem.write(o as isize, C::from_u64(val & m)));
-                model.cells.insert(model.p + o, val & m);
-                touched.push(model.p + o);
+                model.cells.insert(model.p.wrapping_add(o), val & m);
+                touched.push(model.p.wrapping_add(o));
             }
             Op::Access(s, e) => {
                 if !near(model.p.wrapping_add(s)) || !near(model.p.wrapping_add(e)) {
